@@ -488,6 +488,11 @@ def small(spec):
 
 # ------------------------------------------------------------------ check
 def run(ctx):
+    # detector objects are independent of one another (a consequence of "the outputs are a function of the detector's own
+    # parameters and history"): solo trace = trace when a second object of the class is updated alternately (impl/zoo.py)
+    from impl import zoo as _zoo
+    for _f in _zoo.isolation_failures(ctx, ['KdqTreeStreaming', 'KdqTreeBatch']):
+        ctx.fail(signature={"clause": "detector-objects-independent"}, **_f)
     from menelaus.data_drift.kdq_tree import KdqTreeStreaming, KdqTreeBatch
     from menelaus.partitioners.KDQTreePartitioner import KDQTreePartitioner
     rng = np.random.default_rng(ctx.seed)
